@@ -49,6 +49,10 @@ type hist struct {
 	metaOps      int
 	midReads     int
 	burstTargets int
+	// fileBlobs: only these histories give parameter.File nodes a value. (A File value
+	// followed by another blob in the saved buffer is corrupted by reload - known
+	// finding - and the re-save of such a graph cannot be compared byte for byte.)
+	fileBlobs bool
 }
 
 func (h *hist) logf(format string, a ...any) {
@@ -168,6 +172,7 @@ func (h *hist) begin() bool {
 		}
 	}
 	h.start = "empty"
+	h.fileBlobs = r.Intn(5) < 2
 	if r.Intn(3) == 0 {
 		// a hand-built application, as the examples of the repository declare them
 		h.start = "App.Files"
@@ -373,6 +378,9 @@ func (h *hist) connect(tgt *hnode, in catInput, allowCreate bool) bool {
 }
 
 func (h *hist) update(n *hnode) {
+	if n.t.Out == outBytes && !h.fileBlobs {
+		return
+	}
 	msg, class := genMessage(h.r, n.t.Out, n.tame)
 	if msg == nil {
 		return
